@@ -14,6 +14,8 @@ package harness
 import (
 	"bytes"
 	"context"
+	"encoding/json"
+	"net/http"
 	"encoding/binary"
 	"errors"
 	"fmt"
@@ -31,6 +33,7 @@ import (
 	"github.com/DataDog/datadog-traceroute/icmp"
 	"github.com/DataDog/datadog-traceroute/packets"
 	"github.com/DataDog/datadog-traceroute/result"
+	"github.com/DataDog/datadog-traceroute/server"
 	"github.com/DataDog/datadog-traceroute/tcp"
 	"github.com/DataDog/datadog-traceroute/udp"
 	"github.com/google/gopacket/layers"
@@ -481,7 +484,9 @@ func checkSendErr(t *testing.T, c *sendErrCase, rec *Recorder) []Diff {
 	setup := []string{
 		"ip link add vh0 type veth peer name vh1", "ip addr add 10.9.0.1/24 dev vh0", "ip link set vh0 up", "ip link set vh1 up",
 		"ip route add default dev vh0",
-		fmt.Sprintf("iptables -A OUTPUT -d 10.9.7.7 -m ttl --ttl-eq %d -j DROP", c.FailTTL),
+	}
+	if c.FailTTL > 0 {
+		setup = append(setup, fmt.Sprintf("iptables -A OUTPUT -d 10.9.7.7 -m ttl --ttl-eq %d -j DROP", c.FailTTL))
 	}
 	type outcome struct {
 		run     *result.TracerouteRun
@@ -523,6 +528,12 @@ func checkSendErr(t *testing.T, c *sendErrCase, rec *Recorder) []Diff {
 			ds = append(ds, Diff{"C08", "run-exceeds-bound", fmt.Sprintf("%s: the run whose probe with TTL %d the kernel refused took %v (timeout 150 ms, %d TTLs)", c.Variant, c.FailTTL, o.elapsed, c.MaxTTL)})
 		}
 		switch {
+		case c.FailTTL == 0:
+			// nothing is refused: the target is on-link and never answers ARP, so the probes wait in the neighbour
+			// queue below the socket; the run is an ordinary silent one and must end as such
+			if o.err != nil || o.run == nil {
+				add("silent-run-failed", "%s: %d probes towards an on-link address that never answers ARP: the run failed with %v", c.Variant, c.MaxTTL, o.err)
+			}
 		case o.err == nil:
 			add("send-error-lost", "%s: the kernel refused the probe with TTL %d (EPERM) but the run returned a result and no error", c.Variant, c.FailTTL)
 		case o.run != nil:
@@ -579,12 +590,20 @@ func TestC10KernelSendError(t *testing.T) {
 
 // TestC08KernelSendError: the same runs judged for C08: a probe the kernel refuses must not keep the run from ending.
 func TestC08KernelSendError(t *testing.T) {
-	rec := NewRecorder("C08", "C08KernelSendError", "enumeration on the real kernel (private network namespace, real raw sink and capture handle): udp, icmp and tcp-syn runs (timeout 150 ms, 4 TTLs) towards a target for which the namespace's packet filter refuses exactly the probe with TTL k (sendto fails with EPERM), k in {1, 2, 4}; oracle: the run returns within 2 s of real time (its bound is below 1 s); non-trivial always")
+	rec := NewRecorder("C08", "C08KernelSendError", "enumeration on the real kernel (private network namespace, real raw sink and capture handle): udp, icmp and tcp-syn runs (timeout 150 ms, 4 TTLs) towards a target for which the namespace's packet filter refuses exactly the probe with TTL k (sendto fails with EPERM), k in {1, 2, 4}, and udp / icmp runs of 12 / 30 / 60 probes whose packets wait in the neighbour queue (an on-link target that never answers ARP); oracle: the run returns within 2 s of real time (its bound is below 1 s); non-trivial always")
 	rec.Exhaustive = true
 	RunCases(t, rec, func(yield func(*sendErrCase) bool) {
 		for _, v := range []string{"udp4", "icmp4", "tcp"} {
 			for _, k := range []int{1, 2, 4} {
 				if !yield(&sendErrCase{Variant: v, FailTTL: k, MaxTTL: 4}) {
+					return
+				}
+			}
+		}
+		// many probes held below the socket (the on-link target never answers ARP): sending must not wait for them
+		for _, v := range []string{"udp4", "icmp4"} {
+			for _, n := range []int{12, 30, 60} {
+				if !yield(&sendErrCase{Variant: v, FailTTL: 0, MaxTTL: n}) {
 					return
 				}
 			}
@@ -658,6 +677,8 @@ type frameLenCase struct {
 	Captured int  `json:"ip_bytes_on_the_wire"` // length of the IP packet in the frame
 	Claimed  int  `json:"total_length_field"`
 	V6       bool `json:"v6,omitempty"`
+	// Nibble > 0: the version nibble of the IP header is set to this value (the frame keeps the EtherType of its family)
+	Nibble int `json:"version_nibble,omitempty"`
 }
 
 func hostileICMP(c *frameLenCase) []byte {
@@ -689,7 +710,7 @@ func hostileICMP(c *frameLenCase) []byte {
 // TestC09KernelFrames: hostile length fields and frame sizes around the drivers' 1024-byte read buffer, delivered
 // by the real capture handle (Ethernet header stripping included, which a simulated handle never runs).
 func TestC09KernelFrames(t *testing.T) {
-	rec := NewRecorder("C09", "C09KernelFrames", "enumeration on the real kernel (private network namespace): ICMP frames written to the loopback device through a packet socket with IP packet sizes {20, 28, 60, 996..1040, 1500, 4000} x total-length fields {0, 19, 20, size-1, size, size+1, size+14, 1010, 1011, 1024, 1025, 65535} (IPv4 and IPv6 payload-length analogues), read through the real AF_PACKET handle with the ICMP filter into a 1024-byte buffer by packets.ReadAndParse; oracle: no panic, and every outcome is a parsed packet or a retryable error (never a fatal one); non-trivial = the length field disagrees with the frame or the frame exceeds the buffer")
+	rec := NewRecorder("C09", "C09KernelFrames", "enumeration on the real kernel (private network namespace): ICMP frames written to the loopback device through a packet socket with IP packet sizes {20, 28, 60, 996..1040, 1500, 4000} x total-length fields {0, 19, 20, size-1, size, size+1, size+14, 1010, 1011, 1024, 1025, 65535} (IPv4 and IPv6 payload-length analogues), and version nibbles {1, 4, 5, 6, 7, 15} under either EtherType, read through the real AF_PACKET handle with the ICMP filter into a 1024-byte buffer by packets.ReadAndParse; oracle: no panic, and every outcome is a parsed packet or a retryable error (never a fatal one); non-trivial = the length field disagrees with the frame or the frame exceeds the buffer")
 	rec.Exhaustive = true
 	var cases []*frameLenCase
 	sizes := []int{20, 28, 60, 1500, 4000}
@@ -703,6 +724,14 @@ func TestC09KernelFrames(t *testing.T) {
 					continue
 				}
 				cases = append(cases, &frameLenCase{Captured: s, Claimed: cl, V6: v6})
+			}
+		}
+	}
+	// the filters look at the EtherType and the protocol byte, never at the version nibble
+	for _, v6 := range []bool{false, true} {
+		for _, nib := range []int{1, 4, 5, 6, 7, 15} {
+			for _, s := range []int{28, 48, 60, 1100} {
+				cases = append(cases, &frameLenCase{Captured: s, Claimed: s, V6: v6, Nibble: nib})
 			}
 		}
 	}
@@ -736,7 +765,14 @@ func checkFrameLens(t *testing.T, cases []*frameLenCase, rec *Recorder) []Diff {
 		buf := make([]byte, 1024)
 		for _, c := range cases {
 			pkt := hostileICMP(c)
-			if err := inj.send(pkt); err != nil {
+			et := uint16(0x0800)
+			if c.V6 {
+				et = 0x86dd
+			}
+			if c.Nibble > 0 {
+				pkt[0] = byte(c.Nibble)<<4 | pkt[0]&0x0f
+			}
+			if err := inj.sendRaw(et, pkt); err != nil {
 				return fmt.Errorf("harness-infra: inject: %v", err)
 			}
 			// the frame shows up once or twice (outgoing and looped back): read until the handle is quiet
@@ -769,7 +805,7 @@ func checkFrameLens(t *testing.T, cases []*frameLenCase, rec *Recorder) []Diff {
 					return nil
 				}
 			}
-			rec.CaseEnumerated(c.Claimed != len(pkt) || len(pkt) > 1010, nil, fmt.Sprintf("v6:%v", c.V6))
+			rec.CaseEnumerated(c.Claimed != len(pkt) || len(pkt) > 1010 || c.Nibble > 0, nil, fmt.Sprintf("v6:%v", c.V6))
 		}
 		return nil
 	})
@@ -1290,6 +1326,157 @@ func TestC13KernelNonIPFrames(t *testing.T) {
 			t.Fatalf("%v", err)
 		}
 		rec.CaseEnumerated(c.Before > 0, c, "filter:"+c.Filter)
+		return ds
+	})
+}
+
+// ---- whole runs over the real sockets on loopback (C03, C06) ----
+
+type loopRunCase struct {
+	Variant string `json:"variant"` // udp4 udp6 icmp4 icmp6 tcp4
+	MaxTTL  int    `json:"max_ttl"`
+}
+
+// loopbackRun performs one real run against the namespace's own loopback address, which answers the first probe.
+func loopbackRun(c *loopRunCase) (run *result.TracerouteRun, rerr error, tx int, err error) {
+	err = inNetns([]string{"sysctl -qw net.ipv6.conf.lo.disable_ipv6=0"}, func() error {
+		t4, t6 := netip.MustParseAddr("127.0.0.1"), netip.MustParseAddr("::1")
+		time.Sleep(20 * time.Millisecond)
+		before, e := loTxPackets()
+		if e != nil {
+			return fmt.Errorf("harness-infra: %v", e)
+		}
+		pp := common.TracerouteParallelParams{TracerouteParams: common.TracerouteParams{MinTTL: 1, MaxTTL: uint8(c.MaxTTL), TracerouteTimeout: 200 * time.Millisecond, PollFrequency: 20 * time.Millisecond, SendDelay: 40 * time.Millisecond}}
+		switch c.Variant {
+		case "udp4":
+			run, rerr = udp.NewUDPv4(net.IP(t4.AsSlice()), 33434, 1, uint8(c.MaxTTL), 40*time.Millisecond, 200*time.Millisecond, false).Traceroute()
+		case "udp6":
+			run, rerr = udp.NewUDPv4(net.IP(t6.AsSlice()), 33434, 1, uint8(c.MaxTTL), 40*time.Millisecond, 200*time.Millisecond, false).Traceroute()
+		case "icmp4":
+			run, rerr = icmp.RunICMPTraceroute(context.Background(), icmp.Params{Target: t4, ParallelParams: pp})
+		case "icmp6":
+			run, rerr = icmp.RunICMPTraceroute(context.Background(), icmp.Params{Target: t6, ParallelParams: pp})
+		case "tcp4":
+			run, rerr = tcp.NewTCPv4(net.IP(t4.AsSlice()), 443, 1, uint8(c.MaxTTL), 40*time.Millisecond, 200*time.Millisecond, false, false).Traceroute()
+		}
+		time.Sleep(20 * time.Millisecond)
+		after, e := loTxPackets()
+		if e != nil {
+			return fmt.Errorf("harness-infra: %v", e)
+		}
+		tx = after - before
+		return nil
+	})
+	return
+}
+
+func loopRunCases(yield func(*loopRunCase) bool) {
+	for _, v := range []string{"udp4", "udp6", "icmp4", "icmp6", "tcp4"} {
+		for _, m := range []int{1, 4, 8} {
+			if !yield(&loopRunCase{v, m}) {
+				return
+			}
+		}
+	}
+}
+
+// TestC03KernelLoopbackRuns: the list a real run returns when the destination answers the first probe: one entry.
+func TestC03KernelLoopbackRuns(t *testing.T) {
+	rec := NewRecorder("C03", "C03KernelLoopbackRuns", "enumeration on the real kernel (private network namespace, real raw sink and capture handle): udp and icmp runs over IPv4 and IPv6 and a tcp-syn run to the namespace's own loopback address (which answers the first probe: port unreachable, echo reply, RST), last TTL 1 / 4 / 8; oracle: the run succeeds with exactly one entry, TTL 1, the destination; non-trivial = last TTL > 1")
+	rec.Exhaustive = true
+	RunCases(t, rec, loopRunCases, func(t *testing.T, c *loopRunCase, rec *Recorder) []Diff {
+		run, rerr, _, err := loopbackRun(c)
+		if err != nil {
+			fmt.Println(err)
+			t.Fatalf("%v", err)
+		}
+		var ds []Diff
+		switch {
+		case rerr != nil || run == nil:
+			ds = append(ds, Diff{"C03", "loopback-run-failed", fmt.Sprintf("%s last TTL %d to the loopback address failed: %v", c.Variant, c.MaxTTL, rerr)})
+		case len(run.Hops) != 1 || run.Hops[0] == nil || run.Hops[0].TTL != 1 || !run.Hops[0].IsDest:
+			ds = append(ds, Diff{"C03", "list-past-destination", fmt.Sprintf("%s last TTL %d: the loopback destination answers the first probe, the run returned %d entries (%s)", c.Variant, c.MaxTTL, len(run.Hops), describeHops(run))})
+		}
+		rec.CaseEnumerated(c.MaxTTL > 1, c, "variant:"+c.Variant)
+		return ds
+	})
+}
+
+func describeHops(run *result.TracerouteRun) string {
+	var sb strings.Builder
+	for _, h := range run.Hops {
+		if h == nil {
+			sb.WriteString("nil ")
+			continue
+		}
+		fmt.Fprintf(&sb, "%d:%v%s ", h.TTL, h.IPAddress, map[bool]string{true: "*", false: ""}[h.IsDest])
+	}
+	return sb.String()
+}
+
+// TestC06KernelLoopbackRuns: the same runs judged for C06: once the destination has answered, at most one more probe.
+func TestC06KernelLoopbackRuns(t *testing.T) {
+	rec := NewRecorder("C06", "C06KernelLoopbackRuns", "enumeration on the real kernel (private network namespace): the runs of C03KernelLoopbackRuns (send delay 40 ms, the destination answers within microseconds); oracle: the loopback device transmits at most 2 probes and their answers (<= 6 packets; a TCP SYN to a closed port and its RST, a datagram and its port-unreachable, an echo and its reply), whatever the last TTL; non-trivial = last TTL >= 4")
+	rec.Exhaustive = true
+	RunCases(t, rec, loopRunCases, func(t *testing.T, c *loopRunCase, rec *Recorder) []Diff {
+		_, _, tx, err := loopbackRun(c)
+		if err != nil {
+			fmt.Println(err)
+			t.Fatalf("%v", err)
+		}
+		var ds []Diff
+		if tx > 6 {
+			ds = append(ds, Diff{"C06", "probes-after-destination", fmt.Sprintf("%s last TTL %d: the destination answers the first probe at once, yet the loopback device transmitted %d packets during the run (two probes with their answers are 4)", c.Variant, c.MaxTTL, tx)})
+		}
+		rec.CaseEnumerated(c.MaxTTL >= 4, map[string]any{"case": c, "packets_on_the_device": tx}, "variant:"+c.Variant)
+		return ds
+	})
+}
+
+// TestC02ServerLongRun (thorough tier: takes 62 s of real time): the bundled HTTP server, started the way its
+// binary starts it, must deliver the result of a run however long the run takes; the replies were received and
+// matched, and losing the answer on the way out loses them all.
+func TestC02ServerLongRun(t *testing.T) {
+	rec := NewRecorder("C02", "C02ServerLongRun", "real clock, real sockets on loopback, the HTTP server started through Server.Start: one icmp request with a listening timeout of 61 s (the parallel engines listen for the whole timeout) and one short control request; oracle: both are answered with status 200 and a document whose first hop is the loopback address; non-trivial = the request took longer than 60 s")
+	rec.Exhaustive = true
+	type longCase struct {
+		TimeoutMs int `json:"timeout_ms"`
+	}
+	started := false
+	RunCases(t, rec, func(yield func(*longCase) bool) {
+		for _, ms := range []int{300, 61000} {
+			if !yield(&longCase{ms}) {
+				return
+			}
+		}
+	}, func(t *testing.T, c *longCase, rec *Recorder) []Diff {
+		if !started {
+			started = true
+			go server.NewServer().Start("127.0.0.1:3765")
+			for i := 0; i < 100; i++ {
+				if conn, err := net.DialTimeout("tcp", "127.0.0.1:3765", 100*time.Millisecond); err == nil {
+					conn.Close()
+					break
+				}
+				time.Sleep(20 * time.Millisecond)
+			}
+		}
+		var ds []Diff
+		t0 := time.Now()
+		cl := &http.Client{Timeout: 120 * time.Second}
+		resp, err := cl.Get(fmt.Sprintf("http://127.0.0.1:3765/traceroute?target=127.0.0.1&protocol=icmp&max-ttl=2&timeout=%d&traceroute-queries=1&e2e-queries=0", c.TimeoutMs))
+		took := time.Since(t0)
+		if err != nil {
+			ds = append(ds, Diff{"C02", "answer-lost", fmt.Sprintf("a request whose run listens for %d ms got no answer after %v: %v (the loopback address answers the first probe within microseconds)", c.TimeoutMs, took.Round(time.Millisecond), err)})
+		} else {
+			defer resp.Body.Close()
+			var doc result.Results
+			derr := json.NewDecoder(resp.Body).Decode(&doc)
+			if resp.StatusCode != 200 || derr != nil || len(doc.Traceroute.Runs) != 1 || len(doc.Traceroute.Runs[0].Hops) == 0 || !doc.Traceroute.Runs[0].Hops[0].Reachable {
+				ds = append(ds, Diff{"C02", "answer-lost", fmt.Sprintf("a request whose run listens for %d ms was answered with status %d, decode error %v, %d runs", c.TimeoutMs, resp.StatusCode, derr, len(doc.Traceroute.Runs))})
+			}
+		}
+		rec.CaseEnumerated(took > 60*time.Second, map[string]any{"case": c, "took_s": took.Seconds()}, fmt.Sprintf("timeout_ms:%d", c.TimeoutMs))
 		return ds
 	})
 }
